@@ -20,7 +20,7 @@ UUIDS = {h: "00000000-0000-4000-8000-00000000000%d" % i for i, h in enumerate(["
 def xml_doc(g):
     root = ET.Element("odML", version="1.1")
     d = g["d1"]
-    ET.SubElement(root, "id").text = "nonsense-id" if d == "badid" else UUIDS["d1"]
+    ET.SubElement(root, "id").text = "nonsense-id" if d == "badid" else "5" if d == "numid" else UUIDS["d1"]
     ET.SubElement(root, "author").text = "me"
     ET.SubElement(root, "date").text = "not-a-date" if d == "baddate" else "2020-01-02"
     if d == "unknown-child":
@@ -46,7 +46,7 @@ def xml_doc(g):
                 ET.SubElement(e, "name").text = NAME[h] + "again"
             if df != "notype":
                 ET.SubElement(e, "type").text = "" if df == "emptytype" else "t"
-            ET.SubElement(e, "id").text = "nonsense-id" if df == "badid" else UUIDS[h]
+            ET.SubElement(e, "id").text = "nonsense-id" if df == "badid" else "7.5" if df == "numid" else UUIDS[h]
             ET.SubElement(e, "definition").text = "coverage in % of the area (100%d %s)"      # text with format characters
             if df == "unknown-child":
                 ET.SubElement(e, "foo").text = "bar"
@@ -61,7 +61,7 @@ def xml_doc(g):
             e = ET.SubElement(par, "Property" if df == "case-tag" else "property")
             if df not in ("noname", "noname-badvalue"):
                 ET.SubElement(e, "name").text = "a" if ((df == "dupname" and h == "p2") or g[TREE[h]] == "noname-dupchild") else NAME[h]
-            ET.SubElement(e, "id").text = "nonsense-id" if df == "badid" else UUIDS[h]
+            ET.SubElement(e, "id").text = "nonsense-id" if df == "badid" else "7.5" if df == "numid" else UUIDS[h]
             ET.SubElement(e, "type").text = "nonsense-type" if df == "baddtype" else "int"
             ET.SubElement(e, "unit").text = "%"
             ET.SubElement(e, "value").text = "abc" if df in ("badvalue", "noname-badvalue") else ("" if df == "emptyvalue" else "[ \n\t ]" if df == "blanklist" else "[ 1 ,   2 ]" if df == "spacedlist" else "[1,2]")
@@ -89,6 +89,8 @@ def xml_doc(g):
         text = "this is {not xml at all <<<"
     elif f == "wrongroot":
         text = text.replace("<odML ", "<otherML ", 1).replace("</odML>", "</otherML>")
+    elif f == "caseroot":
+        text = text.replace("<odML ", "<odml ", 1).replace("</odML>", "</odml>")       # the root element is spelled odML
     elif f == "wrongversion":
         text = text.replace('version="1.1"', 'version="1"', 1)
     elif f == "noversion":
@@ -100,7 +102,7 @@ def xml_doc(g):
 
 def dict_doc(g):
     d = g["d1"]
-    doc = {"id": "nonsense-id" if d == "badid" else UUIDS["d1"], "author": "me", "date": "not-a-date" if d == "baddate" else "2020-01-02"}
+    doc = {"id": "nonsense-id" if d == "badid" else 5 if d == "numid" else UUIDS["d1"], "author": "me", "date": "not-a-date" if d == "baddate" else "2020-01-02"}
     if d in ("unknown-child", "attr"):
         doc["foo"] = "bar"
     def prop(h):
@@ -108,7 +110,7 @@ def dict_doc(g):
         e = {}
         if df not in ("noname", "noname-badvalue"):
             e["name"] = "a" if ((df == "dupname" and h == "p2") or g[TREE[h]] == "noname-dupchild") else NAME[h]
-        e["id"] = "nonsense-id" if df == "badid" else UUIDS[h]
+        e["id"] = "nonsense-id" if df == "badid" else 7.5 if df == "numid" else UUIDS[h]
         e["type"] = "nonsense-type" if df == "baddtype" else "int"
         e["unit"] = "%"
         e["value"] = ["abc"] if df in ("badvalue", "noname-badvalue") else ([] if df == "emptyvalue" else [" \n\t "] if df == "blanklist" else [1, 2])
@@ -127,7 +129,7 @@ def dict_doc(g):
         if df != "notype":
             e["type"] = "" if df == "emptytype" else "t"
         e["definition"] = "coverage in % of the area (100%d %s)"
-        e["id"] = "nonsense-id" if df == "badid" else UUIDS[h]
+        e["id"] = "nonsense-id" if df == "badid" else 7.5 if df == "numid" else UUIDS[h]
         if df in ("unknown-child", "attr", "case-tag", "repeat-name", "text-in-element"):
             e["foo"] = "bar"
         if df == "badcard":
@@ -144,6 +146,8 @@ def dict_doc(g):
     f = g["file"]
     if f == "wrongroot":
         out = {"Dokument": doc, "odml-version": "1.1"}
+    elif f == "caseroot":
+        out = {"document": doc, "odml-version": "1.1"}
     elif f == "wrongversion":
         out["odml-version"] = "1"
     elif f == "noversion":
